@@ -46,8 +46,10 @@ pub fn parse_styles_map(opt: &cli::Opt) -> Option<HashMap<style::AnsiTermStyleEq
         for pair_str in styles_map_str.split(',') {
             let mut style_strs = pair_str.split("=>").map(|s| s.trim());
             if let (Some(from_str), Some(to_str)) = (style_strs.next(), style_strs.next()) {
-                let from_style = parse_as_style_or_reference_to_git_config(from_str, opt);
-                let to_style = parse_as_style_or_reference_to_git_config(to_str, opt);
+                // The key is compared with raw (24-bit capable) input; the replacement is painted.
+                let from_style = parse_as_style_or_reference_to_git_config(from_str, true, opt);
+                let to_style =
+                    parse_as_style_or_reference_to_git_config(to_str, opt.computed.true_color, opt);
                 styles_map.insert(
                     style::ansi_term_style_equality_key(from_style.ansi_term_style),
                     to_style,
@@ -99,8 +101,12 @@ fn resolve_style_references(
     resolved_styles
 }
 
-fn parse_as_style_or_reference_to_git_config(style_string: &str, opt: &cli::Opt) -> Style {
-    match style_from_str(style_string, None, None, true, opt.git_config()) {
+fn parse_as_style_or_reference_to_git_config(
+    style_string: &str,
+    true_color: bool,
+    opt: &cli::Opt,
+) -> Style {
+    match style_from_str(style_string, None, None, true_color, opt.git_config()) {
         StyleReference::Reference(style_ref) => parse_as_reference_to_git_config(&style_ref, opt),
         StyleReference::Style(style) => style,
     }
